@@ -763,14 +763,24 @@ func runAuthz(c *Ctx, plan any) {
 	}
 	// token lists only show the group the member was in when it asked
 	for _, sc := range w.clients {
+		// Every listtokens request of a member is answered by exactly one
+		// tokenlist message (the list, or an error), in order: the k-th reply
+		// belongs to the k-th request.  (A reply may reach the client after
+		// the server has begun to handle the next request.)
+		var reqs []*handled
+		for _, h := range w.handledL {
+			if h.Client == sc && h.Type == "groupaction" && h.Kind == "listtokens" && h.Before.InGroup {
+				reqs = append(reqs, h)
+			}
+		}
+		nth := 0
 		for _, rm := range sc.recv {
 			if rm.Type == "usermessage" && rm.Kind == "tokenlist" {
 				asked := ""
-				for _, h := range w.handledL {
-					if h.Client == sc && h.Type == "groupaction" && h.Kind == "listtokens" && h.Enter <= rm.Stamp {
-						asked = h.Before.Group
-					}
+				if nth < len(reqs) {
+					asked = reqs[nth].Before.Group
 				}
+				nth++
 				if l, ok := rm.M["value"].([]any); ok {
 					for _, e := range l {
 						if m, _ := e.(map[string]any); m != nil {
